@@ -17,8 +17,8 @@ RULE = ('cases = operation sequences (<=30 ops) over one SimulatedClock whose re
         'exactly; SynchronizedClock(i).time == i.time == clock value at the last execute_once. '
         'Non-trivial = sequence with a speed change or an assignment while the clock is running '
         'and real time passing afterwards; distinct = sha1(op list).')
-ASSUMPTIONS = ['all numbers are dyadic rationals of small magnitude: float arithmetic is exact, so '
-               'reads are compared for equality',
+ASSUMPTIONS = ['all numbers are dyadic rationals between 2**-18 and 2**31 (at most 50 significant '
+               'bits): float arithmetic is exact, so reads are compared for equality',
                'real time is the scripted source only (non-negative increments)']
 
 
@@ -30,7 +30,10 @@ def strategy(tier):
         st.tuples(st.just('set'), st.integers(-256, 640).map(lambda n: n / 64)).map(list),
         st.tuples(st.just('pass'), dt).map(list), st.tuples(st.just('pass'), dt).map(list),
         st.just(['read']), st.just(['exec']),
-        st.sampled_from([['copy', 'deepcopy'], ['copy', 'pickle']]))
+        st.sampled_from([['copy', 'deepcopy'], ['copy', 'pickle']]),
+        # large magnitudes (epoch-like values) and near misses just below the current value
+        st.sampled_from([['set', 2.0 ** 30], ['set', 2.0 ** 20], ['set', -2.0 ** -10],
+                         ['set', -2.0 ** -16], ['set', -2.0 ** -18], ['set', 2.0 ** -18]]))
     return st.tuples(st.booleans(), st.lists(op, min_size=3, max_size=30)).map(
         lambda t: {'ops': ([['start']] if t[0] else []) + t[1]})
 
@@ -115,6 +118,8 @@ def oracle(case):
                     changed_while_running = True
                 if clock.speed != op[1]:
                     bad('speed-not-stored', i, speed=clock.speed, expected=op[1])
+            elif k == 'set' and op[1] >= 2.0 ** 20 and m.read() >= 2 ** 30:
+                pass      # (keeps every value exactly representable)
             elif k == 'set':
                 now = m.read()
                 x = now + Fraction(op[1])
